@@ -261,6 +261,46 @@ func c08One(c c08Case) string {
 		}, h); msg != "" {
 			return msg
 		}
+	case "twice":
+		// p: which layer (0 v1.5 wrapper, 1 v2.0 wrapper signed, 2 message, 3 AES); the
+		// same datagram delivered twice (a duplicate) decodes twice, into one
+		// long-lived value, to the same thing
+		var b []byte
+		var err error
+		var mk func() decoder
+		switch p[0] {
+		case 0:
+			b, err = serialise(&ipmi.V1Session{AuthType: ipmi.AuthenticationTypeNone, Sequence: 5, ID: 9}, gopacket.Payload(inner))
+			mk = func() decoder { return &ipmi.V1Session{} }
+		case 1:
+			b, err = serialise(&ipmi.V2Session{PayloadDescriptor: ipmi.PayloadDescriptorIPMI, Authenticated: true, ID: 3, Sequence: 4, IntegrityAlgorithm: integHash(1, 1)}, gopacket.Payload(inner))
+			mk = func() decoder { return &ipmi.V2Session{IntegrityAlgorithm: integHash(1, 1)} }
+		case 2:
+			b, err = serialise(&ipmi.Message{Operation: ipmi.Operation{Function: 0x07, Command: 0x01}, RemoteAddress: 0x81, LocalAddress: 0x20, Sequence: 1}, gopacket.Payload(inner))
+			mk = func() decoder { return &ipmi.Message{} }
+		default:
+			key := [16]byte{1, 2, 3, 4, 5, 6, 7, 8, 9, 10, 11, 12, 13, 14, 15, 16}
+			a, e := ipmi.NewAES128CBC(key)
+			if e != nil {
+				return e.Error()
+			}
+			b, err = serialise(a, gopacket.Payload(inner))
+			mk = func() decoder { d, _ := ipmi.NewAES128CBC(key); return d }
+		}
+		if err != nil {
+			return "serialise: " + err.Error()
+		}
+		one := mk()
+		var pay [2][]byte
+		for i := 0; i < 2; i++ {
+			if err := one.DecodeFromBytes(append([]byte{}, b...), gopacket.NilDecodeFeedback); err != nil {
+				return fmt.Sprintf("decode %d of the same bytes % x by one value: %v", i+1, b, err)
+			}
+			pay[i] = append([]byte{}, one.(interface{ LayerPayload() []byte }).LayerPayload()...)
+		}
+		if !bytes.Equal(pay[0], pay[1]) || !bytes.Equal(pay[0], inner) {
+			return fmt.Sprintf("the same bytes decoded twice by one value give payloads % x and % x, serialised % x", pay[0], pay[1], inner)
+		}
 	case "v2hist":
 		// p: kind of packet the wrapper's hash met before, integ alg, key. A
 		// session signs what it sends and verifies what it receives with one
@@ -441,6 +481,11 @@ func runC08(r *rep.R) {
 			}
 		}
 		lens(func(n int) { do(c08Case{Layer: "v1", P: []int{at, 1, 8, 0x5A}, N: n}) })
+	}
+	for which := 0; which < 4; which++ {
+		for _, n := range []int{0, 1, 7, 15, 16, 17, 100, 200} {
+			do(c08Case{Layer: "twice", P: []int{which}, N: n})
+		}
 	}
 	// v2.0 wrapper whose hash has verified (and rejected) packets before
 	for kind := 0; kind < 8; kind++ {
